@@ -56,15 +56,19 @@ func init() {
 var orders = []binary.ByteOrder{binary.LittleEndian, binary.BigEndian}
 var orderNames = []string{"LE", "BE"}
 
-// drawSRID draws an SRID in [1, 2^31).
+// drawSRID draws an SRID in [1, 2^32): the field is 32 bits wide and unsigned.
 func drawSRID(s *core.Source) int {
 	switch s.Pick([]int{3, 2, 2, 1, 2}, "sridkind") {
 	case 0:
 		return []int{4326, 3857, 1, 27700, 900913}[s.Intn(5, "common")]
 	case 1:
+		if s.Chance(1, 3, "high") {
+			return 1<<31 + s.Intn(1<<31, "srid32") // the upper half of the 32-bit range
+		}
 		return 1 + s.Intn(1<<31-1, "srid31")
 	case 2:
-		return []int{1, 2, 255, 256, 65535, 65536, 1<<24 - 1, 1 << 24, 0x20000000, 0x20000001, 1<<31 - 1, 1 << 30}[s.Intn(12, "boundary")]
+		return []int{1, 2, 255, 256, 65535, 65536, 1<<24 - 1, 1 << 24, 0x20000000, 0x20000001, 1<<31 - 1, 1 << 30,
+			1 << 31, 1<<31 + 1, 3 << 30, 1<<32 - 2, 1<<32 - 1, 0xA0000000}[s.Intn(18, "boundary")]
 	case 3:
 		return 1 + s.Intn(70000, "small")
 	default:
